@@ -57,17 +57,16 @@ Theorem C01_zero_gradient_is_the_wls_optimum rows p cols :
   (forall a, In a cols -> D2Q (dGa rows p a) == 0) ->
   forall q, S (map qrow rows) (qpar p) <= S (map qrow rows) q.
 Proof. exact (exact_gradient_zero_is_optimum rows p cols). Qed.
-(* the covariance judge: a `true` verdict bounds every entry of N*C - s2*I (N = X'WX of the rows, C = reported p_cov) and the mismatch
-   between (n-p)*s2 and the weighted residual sum of squares ... *)
+(* the covariance judge: a `true` verdict bounds every entry of (n-p)*N*C - SSR*I (N = X'WX of the rows, C = reported p_cov, SSR the weighted
+   residual sum of squares of the reported parameters) ... *)
 Theorem C01_covariance_test_sound e ef rows p cols cov : cov_ok e ef rows p cols cov = true ->
-  let s2 := s2q rows cols cov in
   let dof := inject_Z (Z.of_nat (length rows) - Z.of_nat (length cols)) in
+  let ssr := S (map qrow rows) (qpar p) in
   0 < dof /\
   (forall a b, In a cols -> In b cols ->
-     let rhs := if param_eqb a b then s2 else 0 in
-     Qabs (NCq rows cols cov a b - rhs) <= Qpower 2 e * (NCabsq rows cols cov a b + Qabs rhs) + Qpower 2 (-40) * Qabs s2) /\
-  Qabs (dof * s2 - S (map qrow rows) (qpar p)) <=
-     Qpower 2 e * (Qabs (dof * s2) + S (map qrow rows) (qpar p)) + Qpower 2 ef * D2Q (dY2 rows p).
+     let rhs := if param_eqb a b then ssr else 0 in
+     Qabs (dof * NCq rows cols cov a b - rhs) <=
+       Qpower 2 e * (dof * NCabsq rows cols cov a b + Qabs rhs) + (Qpower 2 ef * D2Q (dY2 rows p) + Qpower 2 (-40) * ssr)).
 Proof. exact (cov_ok_sound e ef rows p cols cov). Qed.
 (* ... and in the exact limit that identity determines the covariance: a symmetric C with N*C = s*I on the columns is unique (= s * inverse of N) *)
 Theorem C01_covariance_identity_determines_the_covariance (cols : list param) (N C1 C2 : param -> param -> Q) (s : Q) :
